@@ -1,7 +1,7 @@
 (* Props/C05.v — CSV import reproduces the file's records (statements; proofs in Proofs/Csv*.v).
    The model (Model/Csv.v) is the code with the repairs work/C05/fix-F-C05{a,c,d,e,b}.diff. *)
 From Coq Require Import ZArith List Lia Bool.
-From EV Require Import Res Arr Csv CsvSpec CsvBase CsvKernel CsvTable CsvRows CsvDriver.
+From EV Require Import Res Arr Csv CsvSpec CsvBase CsvKernel CsvTable CsvRows CsvDriver CsvPrefix CsvMulti CsvRegrow CsvRegrowDrv.
 Import ListNotations.
 Open Scope Z_scope.
 
@@ -62,32 +62,182 @@ Example csv_single_window_example :
     [([0; 3; 5], [120; 44; 121; 32; 122]); ([0; 1; 3], [34; 10; 10])].
 Proof. vm_compute. eexists. repeat split. Qed.
 
-(* PARTIAL.  Independence of chunk_row_size: proved for any two chunk sizes (and any two budget
-   vectors) whose window holds the whole file.  Missing for the full statement of the property:
-   files spanning several windows (needs csv_prefix_stable: a call commits exactly the records
-   that end inside its window) and the regrowth paths (indices/values full, re-entry at the saved
-   offset); those are covered by the exhaustive differential run only. *)
-Theorem csv_chunk_independent_partial :
+(* FULL (extension E1).  Prefix stability of the kernel.  `rows` are the records from the byte at which
+   the call starts (start_index i0; the header line first on the header call) to the end of the file; the
+   window `src` ends anywhere: after k complete records comes p, which is empty or a proper non-empty
+   prefix of the rendering of record k — so the cut may fall inside a plain cell, inside a quoted cell,
+   between the two quotes of an escaped quote, right after a closing quote, after a separator, or exactly
+   at a record end.  With k <= maxrow index rows (k = maxrow only when nothing follows) and every
+   column's value budget above the column's bytes, the call commits exactly the k records that end inside
+   the window (written_row_count = k, buffers = prefix sums and texts of those k records: predicate Good
+   with count k), reports next_pos = the byte after the last of them, raises `values full` never and
+   `indices full` exactly when k = maxrow, with the closed-form fuel len src - i0 + 1. *)
+Theorem csv_prefix_stable :
+  forall (src offs : list Z) (maxrow ncols : Z),
+  len offs = ncols + 1 -> 0 < ncols -> 0 < maxrow ->
+  forall (V : Z) (rows : list (list cell)),
+  nthZ offs 0 = 0 ->
+  (forall c, 0 <= c < ncols -> nthZ offs c + len (CB rows c) < nthZ offs (c + 1)) ->
+  nthZ offs ncols <= V ->
+  Forall (fun rw => len rw = ncols) rows ->
+  forall (hasHeader : bool) (hdr : list cell) (k : nat) (i0 : Z) (inds : arr2) (vals p : list Z),
+  (k <= length rows)%nat -> Z.of_nat k <= maxrow -> 0 <= i0 <= len src ->
+  (hasHeader = true -> i0 = 0 /\ len hdr = ncols) ->
+  suf src i0 = (if hasHeader then render_row hdr else []) ++ render_file (firstn k rows) ++ p ->
+  (p = [] \/ (Z.of_nat k < maxrow /\ (k < length rows)%nat /\
+              exists q, q <> [] /\ render_row (nth k rows []) = p ++ q)) ->
+  shape ncols (maxrow + 1) inds -> (forall c, 0 <= c < ncols -> I2 inds c 0 = 0) -> len vals = V ->
+  exists out, fast_csv_reader (fsm_fuel src i0) src i0 inds vals offs hasHeader = Ok out /\
+    f_next out = i0 + len (if hasHeader then render_row hdr else []) + len (render_file (firstn k rows)) /\
+    f_rows out = Z.of_nat k /\ f_ifull out = (Z.of_nat k =? maxrow) /\ f_vfull out = false /\
+    Good ncols (maxrow + 1) V offs rows (fun _ => Z.of_nat k) (f_inds out) (f_vals out).
+Proof. exact kernel_prefix_stable. Qed.
+Print Assumptions csv_prefix_stable.
+
+(* instances of the three delicate cut points (header `a`, records `x<quote>y` and `z`, one column):
+   the file is  a LF Q x Q Q y Q LF z LF  (Q = the quote byte 34; bytes 0..10); windows of 4, 5 and 8 bytes end inside the quoted
+   cell, between the two quotes of the escaped quote, and right after the closing quote: in all three the
+   call commits no record and returns next_pos = 2, the byte after the header line; the 9-byte window
+   holds the record and returns next_pos = 9 *)
+Example csv_prefix_stable_cuts :
+  let file := render_file [[(false, [97])]; [(false, [120; 34; 121])]; [(false, [122])]] in
+  let run n := match fast_csv_reader (fsm_fuel (firstn n file) 0) (firstn n file) 0 (zeros2 1 5) (zeros 10) [0; 10] true with
+               | Ok o => Some (f_next o, f_rows o, f_esc o, f_cand o) | _ => None end in
+  file = [97; 10; 34; 120; 34; 34; 121; 34; 10; 122; 10] /\
+  run 4%nat = Some (2, 0, true, false) /\ run 5%nat = Some (2, 0, true, false) /\
+  run 8%nat = Some (2, 0, true, false) /\ run 9%nat = Some (9, 1, false, false).
+Proof. vm_compute. repeat split. Qed.
+
+(* FULL (extension E1).  The multi-window driver: a rendered file of any length, with or without the final
+   newline, any chunk_row_size whose window (2 * chunk_row_size * ncols bytes) holds every line of the
+   file on its own (the header line and each record; in particular "header plus longest record"
+   suffices), every column's value budget above the column's total bytes (so the value buffers never
+   regrow; the index buffer may regrow at a window end, lines 122-124), any index_map: read_file runs
+   through all windows, reports |rows| rows and every imported column is exactly the indexed-string
+   encoding of that column's cell texts in file order.  Fuel: one iteration per record suffices. *)
+Theorem csv_multi_window_roundtrip :
+  forall hdr rows file crs ncols offs index_map,
+  0 < ncols -> len hdr = ncols -> Forall (fun rw => len rw = ncols) rows ->
+  (file = render_file (hdr :: rows) \/
+   (file ++ [NL] = render_file (hdr :: rows) /\ file <> [] /\ last file NL <> NL)) ->
+  (forall r, In r (hdr :: rows) -> len (render_row r) <= crs * 2 * ncols) ->
+  len offs = ncols + 1 -> nthZ offs 0 = 0 ->
+  (forall c, 0 <= c < ncols -> nthZ offs c + len (CB rows c) < nthZ offs (c + 1)) ->
+  Forall (fun c => 0 <= c < ncols) index_map ->
+  forall fuel, (length rows + 2 <= fuel)%nat ->
+  exists d, read_file fuel file crs ncols offs index_map = Ok d /\
+    d_acc d = len rows /\
+    map (fun m => (i_indices m, i_values m)) (d_imps d) =
+    map (fun ts => (enc_indices ts, enc_values ts)) (select index_map rows).
+Proof. exact read_file_multi_window. Qed.
+Print Assumptions csv_multi_window_roundtrip.
+
+(* FULL (extension E1).  The kernel with ARBITRARY positive value budgets (offs strictly increasing from 0)
+   and any number maxrow >= 1 of index rows, entered at a record start of a window that ends anywhere:
+   it commits j <= k of the k records that end inside the window (written_row_count = j, next_pos = the
+   byte after the j-th, buffers = prefix sums / texts of those j records and every column's committed bytes
+   strictly inside its budget: predicate GoodL with count j) and stops for exactly one of three reasons
+   (predicate KOut, Proofs/CsvRegrow.v): `values full` in a column vfc whose budget is at most that
+   column's bytes, with next_pos < len src (so the driver re-enters); `indices full` with j = maxrow;
+   or no flag at all, and then j = k: every record that ends inside the window is committed. *)
+Theorem csv_kernel_any_budget :
+  forall (src offs : list Z) (maxrow ncols : Z),
+  len offs = ncols + 1 -> 0 < ncols -> 0 < maxrow ->
+  forall (V : Z) (rows : list (list cell)),
+  nthZ offs 0 = 0 ->
+  (forall c, 0 <= c < ncols -> nthZ offs c + 1 <= nthZ offs (c + 1)) ->
+  nthZ offs ncols <= V ->
+  Forall (fun rw => len rw = ncols) rows ->
+  forall (hasHeader : bool) (hdr : list cell) (k : nat) (i0 : Z) (inds : arr2) (vals p : list Z),
+  (k <= length rows)%nat -> 0 <= i0 <= len src ->
+  (hasHeader = true -> i0 = 0 /\ len hdr = ncols) ->
+  suf src i0 = (if hasHeader then render_row hdr else []) ++ render_file (firstn k rows) ++ p ->
+  (p = [] \/ ((k < length rows)%nat /\ exists q, q <> [] /\ render_row (nth k rows []) = p ++ q)) ->
+  shape ncols (maxrow + 1) inds -> (forall c, 0 <= c < ncols -> I2 inds c 0 = 0) -> len vals = V ->
+  exists out, fast_csv_reader (fsm_fuel src i0) src i0 inds vals offs hasHeader = Ok out /\
+  exists j : nat, (j <= k)%nat /\ f_rows out = Z.of_nat j /\ Z.of_nat j <= maxrow /\
+    f_next out = i0 + len (if hasHeader then render_row hdr else []) + len (render_file (firstn j rows)) /\
+    GoodL offs maxrow ncols V rows (fun _ => Z.of_nat j) (f_inds out) (f_vals out) /\
+    ((f_vfull out = true /\ f_ifull out = false /\ 0 <= f_vfc out < ncols /\
+      nthZ offs (f_vfc out + 1) - nthZ offs (f_vfc out) <= len (CB rows (f_vfc out)) /\ f_next out < len src)
+     \/ (f_vfull out = false /\ f_ifull out = true /\ Z.of_nat j = maxrow)
+     \/ (f_vfull out = false /\ f_ifull out = false /\ j = k)).
+Proof. exact kernel_any_budget. Qed.
+Print Assumptions csv_kernel_any_budget.
+
+(* FULL (extension E1; the regrowth paths).  The driver with ARBITRARY positive column budgets
+   (column_offsets strictly increasing from 0 - a zero budget makes the real code loop forever) and any
+   chunk_row_size whose window holds every line of the file on its own: whenever a call raises `values
+   full` the records it committed are imported, that column's budget is doubled, the value buffer is
+   re-allocated and the same window is re-entered at the saved offset (lines 127-141); `indices full` in
+   the middle of a window doubles the index buffer and re-enters likewise; the import is |rows| rows and,
+   per column, exactly the indexed-string encoding of the column's cell texts.
+   Fuel (closed form): 2 * |rows| + 2 * mu + 4 driver iterations, where mu (Proofs/CsvRegrowDrv.v) is the sum
+   over the columns of max 0 (column bytes + 1 - budget) - an upper bound on the number of doublings
+   (mu = 0 when every budget exceeds its column: lemma mu_zero). *)
+Theorem csv_import_roundtrip :
+  forall hdr rows file crs ncols index_map,
+  0 < ncols -> len hdr = ncols -> Forall (fun rw => len rw = ncols) rows ->
+  (file = render_file (hdr :: rows) \/
+   (file ++ [NL] = render_file (hdr :: rows) /\ file <> [] /\ last file NL <> NL)) ->
+  (forall r, In r (hdr :: rows) -> len (render_row r) <= crs * 2 * ncols) ->
+  Forall (fun c => 0 <= c < ncols) index_map ->
+  forall offs fuel,
+  (len offs = ncols + 1 /\ nthZ offs 0 = 0 /\ forall c, 0 <= c < ncols -> nthZ offs c + 1 <= nthZ offs (c + 1)) ->
+  (2 * length rows + 2 * Z.to_nat (mu ncols rows offs) + 4 <= fuel)%nat ->
+  exists d, read_file fuel file crs ncols offs index_map = Ok d /\
+    d_acc d = len rows /\
+    map (fun m => (i_indices m, i_values m)) (d_imps d) =
+    map (fun ts => (enc_indices ts, enc_values ts)) (select index_map rows).
+Proof. exact read_file_regrow. Qed.
+Print Assumptions csv_import_roundtrip.
+
+(* FULL (extension E1; replaces csv_chunk_independent_partial: neither "the window holds the whole file"
+   nor "the budgets exceed the column totals" is assumed any more).  Independence of chunking: for any two
+   chunk_row_sizes whose windows hold every line of the file on its own (in particular: header plus longest
+   record), and any two positive budget vectors, read_file returns the same row count and the same imported
+   columns (both equal the specification) - across any number of windows, value-buffer regrowths, index-buffer
+   regrowths and re-entries. *)
+Theorem csv_chunk_independent :
   forall hdr rows file crs1 crs2 ncols offs1 offs2 index_map fuel1 fuel2,
   0 < ncols -> len hdr = ncols -> Forall (fun rw => len rw = ncols) rows ->
   (file = render_file (hdr :: rows) \/
    (file ++ [NL] = render_file (hdr :: rows) /\ file <> [] /\ last file NL <> NL)) ->
-  len (render_file (hdr :: rows)) <= crs1 * 2 * ncols -> len (render_file (hdr :: rows)) <= crs2 * 2 * ncols ->
-  len rows < crs1 * 2 -> len rows < crs2 * 2 ->
-  len offs1 = ncols + 1 -> nthZ offs1 0 = 0 -> len offs2 = ncols + 1 -> nthZ offs2 0 = 0 ->
-  (forall c, 0 <= c < ncols -> nthZ offs1 c + len (CB rows c) < nthZ offs1 (c + 1)) ->
-  (forall c, 0 <= c < ncols -> nthZ offs2 c + len (CB rows c) < nthZ offs2 (c + 1)) ->
-  Forall (fun c => 0 <= c < ncols) index_map -> (2 <= fuel1)%nat -> (2 <= fuel2)%nat ->
+  (forall r, In r (hdr :: rows) -> len (render_row r) <= crs1 * 2 * ncols) ->
+  (forall r, In r (hdr :: rows) -> len (render_row r) <= crs2 * 2 * ncols) ->
+  (len offs1 = ncols + 1 /\ nthZ offs1 0 = 0 /\ forall c, 0 <= c < ncols -> nthZ offs1 c + 1 <= nthZ offs1 (c + 1)) ->
+  (len offs2 = ncols + 1 /\ nthZ offs2 0 = 0 /\ forall c, 0 <= c < ncols -> nthZ offs2 c + 1 <= nthZ offs2 (c + 1)) ->
+  Forall (fun c => 0 <= c < ncols) index_map ->
+  (2 * length rows + 2 * Z.to_nat (mu ncols rows offs1) + 4 <= fuel1)%nat ->
+  (2 * length rows + 2 * Z.to_nat (mu ncols rows offs2) + 4 <= fuel2)%nat ->
   exists d1 d2, read_file fuel1 file crs1 ncols offs1 index_map = Ok d1 /\
                 read_file fuel2 file crs2 ncols offs2 index_map = Ok d2 /\
                 d_acc d1 = d_acc d2 /\
                 map (fun m => (i_indices m, i_values m)) (d_imps d1) = map (fun m => (i_indices m, i_values m)) (d_imps d2).
-Proof. exact read_file_chunk_independent_one_window. Qed.
-Print Assumptions csv_chunk_independent_partial.
+Proof. exact read_file_chunk_independent_any. Qed.
+Print Assumptions csv_chunk_independent.
+
+(* a non-trivial instance of the hypotheses: 2 columns, 3 records (a separator, a doubled quote, a line
+   break inside cells), no final newline; chunk_row_size 3 with 1-byte budgets (windows of 12 bytes that cut
+   quoted cells; 7 kernel calls, 4 budget doublings, 4 re-entries; mu = 9) against chunk_row_size 20 with large budgets
+   (one call) *)
+Example csv_chunk_independent_example :
+  let hdr := [(false, [97]); (false, [98])] in
+  let rows := [[(false, [120; 44; 121]); (false, [34])]; [(true, [32; 122]); (false, [10; 10])]; [(false, []); (false, [119])]] in
+  let file := removelast (render_file (hdr :: rows)) in
+  Forall (fun r => len (render_row r) <= 3 * 2 * 2) (hdr :: rows) /\
+  Z.of_nat (2 * length rows + 2 * Z.to_nat (mu 2 rows [0; 1; 2]) + 4) = 28 /\
+  exists d1 d2, read_file 28 file 3 2 [0; 1; 2] [0; 1] = Ok d1 /\ read_file 10 file 20 2 [0; 50; 90] [0; 1] = Ok d2 /\
+    d_acc d1 = 3 /\ d_acc d2 = 3 /\ length (d_trace d1) = 7%nat /\ length (d_trace d2) = 1%nat /\
+    d_offs d1 = [0; 4; 8] /\
+    map (fun m => (i_indices m, i_values m)) (d_imps d1) = map (fun m => (i_indices m, i_values m)) (d_imps d2) /\
+    map (fun m => (i_indices m, i_values m)) (d_imps d1) =
+    [([0; 3; 5; 5], [120; 44; 121; 32; 122]); ([0; 1; 3; 4], [34; 10; 10; 119])].
+Proof. vm_compute. split; [repeat constructor; discriminate|]. split; [reflexivity|]. eexists. eexists. repeat split. Qed.
 
 (* multi-window + regrowth instances, checked by computation (not theorems of the property):
    3 records over windows of 8 bytes with a 1-byte value budget (values-full, re-entry, doubling) *)
-Example csv_multi_window_regrow_example :
+Example csv_value_regrowth_example :
   let hdr := [(false, [97])] in
   let rows := [[(false, [])]; [(false, [34])]; [(false, [97; 98; 99])]] in
   exists d, read_file 100 (render_file (hdr :: rows)) 4 1 [0; 1] [0] = Ok d /\ d_acc d = 3 /\
